@@ -43,7 +43,14 @@ type Report struct {
 
 	mu       sync.Mutex
 	distinct map[string]struct{}
+	perClass map[string]int
+	unlisted int
 }
+
+const (
+	maxPerClass = 20
+	maxUnlisted = 200
+)
 
 func NewReport(prop, tier string, seed uint64) *Report {
 	return &Report{Property: prop, Tier: tier, Seed: seed, Hist: map[string]int{}, distinct: map[string]struct{}{}, Failures: []Failure{}, Samples: []interface{}{}}
@@ -81,9 +88,27 @@ func (r *Report) Fail(f Failure) {
 	r.mu.Lock()
 	defer r.mu.Unlock()
 	f.Seed = r.Seed
-	if len(r.Failures) < 200 {
-		r.Failures = append(r.Failures, f)
+	// Failures inside a documented known-finding class are kept up to a small number PER CLASS,
+	// failures outside every class up to 200: a long run that reproduces one known finding hundreds
+	// of times must not use up the room before a later stream reaches an unlisted failure (that is
+	// how the thorough tier lost the null-object-elements failures behind 116 variable-named-id ones).
+	if f.Class != "" {
+		if r.perClass == nil {
+			r.perClass = map[string]int{}
+		}
+		if r.perClass[f.Class] >= maxPerClass {
+			r.Hist["failures not recorded: known class "+f.Class]++
+			return
+		}
+		r.perClass[f.Class]++
+	} else {
+		if r.unlisted >= maxUnlisted {
+			r.Hist["failures not recorded: outside every known class"]++
+			return
+		}
+		r.unlisted++
 	}
+	r.Failures = append(r.Failures, f)
 	// the first failures are written out at once: a harness that is killed later (a crash of the
 	// real code in a goroutine, the time budget of a search) still leaves its concrete findings
 	if r.AutoPath != "" && len(r.Failures) <= 10 {
